@@ -77,6 +77,8 @@ def make_C(rng, tree=None, T=4, comm=None, spread=None, integer=True, mults=(1, 
                 k = rng.randint(1, T - 1)
                 path = path[:k] + [max(1, path[k] // rng.choice([4, 8, 10]))] + path[k + 1 :]
             sp = [rng.choice([0, spread]) for _ in range(T)] if spread else [0] * T
+            # domain of C05: trading costs per unit stay well below the unit price
+            sp = [s_ if (p_ is not None and 4 * s_ <= p_) else 0 for s_, p_ in zip(sp, path)]
             px_by_name[nm] = (path, sp)
         path, sp = px_by_name[nm]
         px.append([NAN if v is None else [v, 1] for v in path])
@@ -110,6 +112,7 @@ def make_C(rng, tree=None, T=4, comm=None, spread=None, integer=True, mults=(1, 
         "bidoffer": bool(spread) if bidoffer is None else bool(bidoffer),
         "D": D,
         "DW": 200000,
+        "paper": False,
     }
     # same ticker in several sub-strategies shares the multiplier too
     seen = {}
